@@ -73,6 +73,14 @@ func displacementScenarios() []clustermc.Scenario {
 			b.GQueue("qa", "", 2, -1, 1).GQueue("qb", "", 0, -1, 1).GQueue("qc", "", 1, -1, 1)
 		}},
 	}
+	// a department whose GPU limit (and quota) equals what its leaf queues use: displacement between
+	// its own leaf queues does not raise its allocation
+	for _, lim := range []float64{2, 3} {
+		lim := lim
+		trees = append(trees, queueSetup{name("2lvl-d1-limit-quota", []int{int(lim)}) + "(qa1,qb0)-d2(qc1)", func(b *world.Builder) {
+			b.GQueue("d1", "", lim, lim, 1).GQueue("d2", "", 1, -1, 1).GQueue("qa", "d1", 1, -1, 1).GQueue("qb", "d1", 0, -1, 1).GQueue("qc", "d2", 1, -1, 1)
+		}})
+	}
 	cfgs := []schedrun.Config{{}, {Placement: "spread", NoConsolidation: true}, {Signatures: true}}
 	for ti, tr := range trees {
 		for vi, vs := range victimSets {
